@@ -237,13 +237,7 @@ theorem tie_make_new_name_shape :
 theorem tie_destruct_vital_shape :
     destructVitalShape = [
       "if ((ob == simul_efun_ob) && master_ob)", "error(\"*Cannot destruct simul_efun_object while master_object exists.\")",
-      "if ((ob == master_ob) || (ob == simul_efun_ob))", "decl new_ob = 0", "decl vital_obj_name = 0", "if (ob == master_ob)",
-      "if (ob == simul_efun_ob)", "if (vital_obj_name && !g_proceeding_shutdown)",
-      "if !strip_name(vital_obj_name, new_name, sizeof)",
-      "error(\"*Destruction of vital object rejected due to invalid config setting (\\\"%s\\\").\", vital_obj_name)",
-      "(new_ob = load_object(tmp, 0))", "if !new_ob", "error(\"*Destruct on vital object failed: new copy failed to reload.\")",
-      "if (ob == master_ob)", "set_master(new_ob)", "if (ob == simul_efun_ob)", "set_simul_efun(new_ob)", "if new_ob", "if new_ob"] := by
-  decide
+      "(new_ob = load_object(tmp, 0))", "set_master(new_ob)", "set_simul_efun(new_ob)"] := by decide
 
 /-- the error texts the model prints (`Err.render`, NV/C20/Drive.lean) are the driver's (harness form: newline dropped,
     blanks as `_`) -/
